@@ -16,6 +16,11 @@
 //   pool doneswap call=<id> reply=<key>/ sc=<id>   a BIND call completes successfully and is stopped right before it takes
 //                                            the balancer lock to record its keys; the replacement connection <sc> is
 //                                            reported READY (the swap) meanwhile; then the completion continues
+//   pool other                               another channel of the same process builds (and closes) its own balancer: nothing
+//                                            in this balancer — tables, published pickers — may change
+//   pool doneccs call=<id> addrs=<v>         a call completes with a client-side deadline error; if that makes the balancer
+//                                            create a replacement connection, a resolver update with list <v> arrives while the
+//                                            factory is at work (otherwise right afterwards)
 //   pool done2 a=<id> b=<id>                 two calls complete with a client-side deadline error at the same time while
 //                                            the harness stalls gb.mu (both reach refresh() together)
 //                                            => <events> ; a:<result> ; b:<result> ; <digest>
@@ -146,6 +151,7 @@ type vCC struct {
 	failN   int
 	pubs    []vPub
 	harness *vPool
+	onNew   func() // armed by `doneccs`: runs at the start of the next NewSubConn (outside cc.mu)
 }
 
 const vMaxEvents = 64 // a spinning callback must not flood the trace
@@ -165,6 +171,13 @@ func (cc *vCC) evLocked(s string) {
 }
 
 func (cc *vCC) NewSubConn(a []resolver.Address, _ balancer.NewSubConnOptions) (balancer.SubConn, error) {
+	cc.mu.Lock()
+	f := cc.onNew
+	cc.onNew = nil
+	cc.mu.Unlock()
+	if f != nil {
+		f()
+	}
 	cc.mu.Lock()
 	defer cc.mu.Unlock()
 	if len(a) == 0 {
@@ -594,6 +607,14 @@ func (h *vPool) exec(line string) string {
 	case "factory":
 		h.cc.failN = atoi("fail")
 		res = "ok"
+	case "other":
+		res = guarded(func() string {
+			cc2 := &vCC{scs: map[int]*vSubConn{}, harness: &vPool{}}
+			b2 := balancer.Get(Name).Build(cc2, balancer.BuildOptions{})
+			b2.UpdateClientConnState(balancer.ClientConnState{ResolverState: resolver.State{Addresses: []resolver.Address{{Addr: "other"}}}})
+			b2.Close()
+			return "ok"
+		})
 	case "adv":
 		n, _ := strconv.ParseInt(a["ns"], 10, 64)
 		atomic.AddInt64(&verifClock, n)
@@ -628,6 +649,8 @@ func (h *vPool) exec(line string) string {
 		res = h.doDone2(a)
 	case "doneswap":
 		res = h.doDoneSwap(a)
+	case "doneccs":
+		res = h.doDoneCcs(a)
 	case "rrburst":
 		res = h.doRRBurst(a)
 	case "ctxdone":
@@ -928,6 +951,64 @@ func (h *vPool) doDoneSwap(a map[string]string) string {
 	}
 	if first != "ok" {
 		return first
+	}
+	return r2
+}
+
+// doDoneCcs: see the header. The resolver update is started from inside the connection factory and given time to
+// run; on the clean tree it has to wait for the balancer lock that refresh() holds.
+func (h *vPool) doDoneCcs(a map[string]string) string {
+	id, _ := strconv.Atoi(a["call"])
+	ver, _ := strconv.Atoi(a["addrs"])
+	c, ok := h.calls[id]
+	if !ok {
+		return "bad-op"
+	}
+	delete(h.calls, id)
+	if c.reply != nil {
+		c.reply.Key, c.reply.Keys = "", nil
+	}
+	addrs := []resolver.Address{}
+	if ver > 0 {
+		addrs = append(addrs, resolver.Address{Addr: fmt.Sprintf("a%d", ver)})
+	}
+	st := balancer.ClientConnState{ResolverState: resolver.State{Addresses: addrs}}
+	switch h.cfgKind {
+	case "given":
+		st.BalancerConfig = h.cfg
+	case "empty":
+		st.BalancerConfig = &GCPBalancerConfig{}
+	}
+	ccsDone := make(chan string, 1)
+	fired := int32(0)
+	h.cc.mu.Lock()
+	h.cc.onNew = func() {
+		atomic.StoreInt32(&fired, 1)
+		go func() {
+			ccsDone <- guarded(func() string { h.b.UpdateClientConnState(st); return "ok" })
+		}()
+		time.Sleep(15 * time.Millisecond)
+	}
+	h.cc.mu.Unlock()
+	r1 := guarded(func() string {
+		c.done(balancer.DoneInfo{Err: status.Error(codes.DeadlineExceeded, context.DeadlineExceeded.Error())})
+		return "ok"
+	})
+	h.cc.mu.Lock()
+	h.cc.onNew = nil
+	h.cc.mu.Unlock()
+	r2 := "ok"
+	if atomic.LoadInt32(&fired) == 1 {
+		select {
+		case r2 = <-ccsDone:
+		case <-time.After(3 * time.Second):
+			r2 = "HANG"
+		}
+	} else {
+		r2 = guarded(func() string { h.b.UpdateClientConnState(st); return "ok" })
+	}
+	if r1 != "ok" {
+		return r1
 	}
 	return r2
 }
@@ -1526,7 +1607,16 @@ func (g *vGen) scenarioFallbackRefresh() {
 		if _, ok := h.calls[bindID]; !ok {
 			return ""
 		}
+		// (a reply that carries two keys: both get bound to the same channel)
 		return fmt.Sprintf("pool done call=%d err=nil reply=k1/", bindID)
+	})
+	var bindID2 int
+	add(func() string {
+		if sc, ok := h.gb.affinityMap["k1"]; !ok || cur() < 0 || h.gb.scRefs[sc] == nil {
+			return ""
+		}
+		bindID2 = call()
+		return fmt.Sprintf("pool pick call=%d picker=%d m=bound ctx=gcp dl=none req=k1/", bindID2, cur())
 	})
 	home := func() string {
 		if sc, ok := h.gb.affinityMap["k1"]; ok {
@@ -1534,11 +1624,55 @@ func (g *vGen) scenarioFallbackRefresh() {
 		}
 		return ""
 	}
+	// a second key on the same home channel: a BIND call that lands there (k1's call keeps the others busier? no:
+	// simply try; if it lands elsewhere the step below is skipped)
+	var bindID3 int
+	add(func() string {
+		if cur() < 0 {
+			return ""
+		}
+		bindID3 = call()
+		return fmt.Sprintf("pool pick call=%d picker=%d m=bind ctx=gcp dl=none req=/", bindID3, cur())
+	})
+	add(func() string {
+		if _, ok := h.calls[bindID3]; !ok {
+			return ""
+		}
+		return fmt.Sprintf("pool done call=%d err=nil reply=k2/", bindID3)
+	})
+	add(func() string {
+		if _, ok := h.calls[bindID2]; !ok {
+			return ""
+		}
+		return fmt.Sprintf("pool done call=%d err=nil reply=/", bindID2)
+	})
 	add(func() string {
 		if home() == "" {
 			return ""
 		}
 		return fmt.Sprintf("pool scs sc=%s st=%s", home(), []string{"TF", "CONNECTING", "IDLE"}[r.Intn(3)])
+	})
+	// the first two keyed calls after the outage arrive together through two pickers: neither key has a stand-in yet
+	add(func() string {
+		sc1, ok1 := h.gb.affinityMap["k1"]
+		sc2, ok2 := h.gb.affinityMap["k2"]
+		if !ok1 || !ok2 || cur() < 1 || h.gb.scStates[sc1] == connectivity.Ready || h.gb.scStates[sc2] == connectivity.Ready ||
+			h.pickerBusy(cur()) || h.pickerBusy(cur()-1) || r.Intn(2) == 0 {
+			return ""
+		}
+		// with several READY channels to choose from, which stand-in the second call gets depends on whether the first
+		// one's stream was counted yet (counting is per picker): only the unambiguous case is generated
+		nReady := 0
+		for _, st := range h.gb.scStates {
+			if st == connectivity.Ready {
+				nReady++
+			}
+		}
+		if nReady != 1 {
+			return ""
+		}
+		g.nextCall += 2
+		return fmt.Sprintf("pool pick2 a=%d b=%d picker=%d picker2=%d m=bound req=k1/ req2=k2/", g.nextCall-1, g.nextCall, cur(), cur()-1)
 	})
 	rounds := 1 + r.Intn(2)
 	for round := 0; round < rounds; round++ {
@@ -1832,7 +1966,12 @@ func (g *vGen) doneLine() string {
 	if r.Intn(6) == 0 {
 		reply = "/" + g.key() + "," + g.key()
 	}
-	return fmt.Sprintf("pool done call=%d err=%s reply=%s", id, errs[r.Intn(len(errs))], reply)
+	e := errs[r.Intn(len(errs))]
+	if e == "declient" && r.Intn(5) == 0 {
+		g.maxAddr++
+		return fmt.Sprintf("pool doneccs call=%d addrs=%d", id, g.maxAddr)
+	}
+	return fmt.Sprintf("pool done call=%d err=%s reply=%s", id, e, reply)
 }
 
 func (g *vGen) scsLine() string {
@@ -1942,7 +2081,11 @@ func (g *vGen) next(i int) string {
 				k1, k2 := g.boundKey(), g.boundKey()
 				_, b1 := h.gb.affinityMap[k1]
 				_, b2 := h.gb.affinityMap[k2]
-				if !h.pickerBusy(pn2) && k1 != "" && k2 != "" && b1 && b2 {
+				homesUp := true
+				if b1 && b2 {
+					homesUp = h.gb.scStates[h.gb.affinityMap[k1]] == connectivity.Ready && h.gb.scStates[h.gb.affinityMap[k2]] == connectivity.Ready
+				}
+				if !h.pickerBusy(pn2) && k1 != "" && k2 != "" && b1 && b2 && (homesUp || !h.gb.cfg.GetChannelPool().GetFallbackToReady()) {
 					line += fmt.Sprintf(" picker2=%d m=bound req=%s/ req2=%s/", pn2, k1, k2)
 				}
 			}
@@ -1969,6 +2112,9 @@ func (g *vGen) next(i int) string {
 			line = fmt.Sprintf("pool ccs addrs=%d", ver)
 		case w < 94:
 			line = "pool reserr"
+			if r.Intn(3) == 0 {
+				line = "pool other"
+			}
 		case w < 97:
 			if g.profile == "chaos" || g.profile == "refresh" || r.Intn(5) == 0 {
 				n := r.Intn(3)
